@@ -9,6 +9,7 @@ Tie K : the grid operation x stored type x state x version x parameter menu (+ s
 Oracle: result_reason == GENERAL_FAILURE on any cell is a violation unless it matches a findings.d/C13.json signature.
 """
 import itertools
+import os
 import json
 import logging
 import traceback
@@ -234,11 +235,17 @@ class Driver:
             out[-1]['warned'] = -1      # the WARNING count and the GENERAL_FAILURE count of the batch disagree
         return out
 
-    def run(self, item, version=(1, 2), user='alice'):
+    def run(self, item, version=(1, 2), user='alice', auth=None):
         """-> observation dict {status, reason, crash: None | {site, exc}, crypto: [(fn, outcome)], warned}"""
         self.cap.reset()
         self.crypto_calls = []
-        r = self.eng.request([item], version=version, user=user)
+        try:
+            r = self.eng.request([item], version=version, user=user, auth=auth)
+        except Exception as e:      # not a KmipError: the session answers the whole message with GENERAL_FAILURE
+            fr = [f for f in traceback.extract_tb(e.__traceback__) if '/kmip/' in f.filename.replace('\\', '/') and '/site-packages/' not in f.filename]
+            site = ('%s:%s' % (fr[-1].filename.replace('\\', '/').split('/kmip/', 1)[1], fr[-1].name)) if fr else None
+            return {'status': 'REQUEST_CRASH', 'reason': 'GENERAL_FAILURE', 'crypto': list(self.crypto_calls), 'warned': 1, 'message': str(e)[:160],
+                    'crash': {'site': site, 'exc': type(e).__name__, 'msg': str(e)[:160], 'detail': exc_detail(e)}, 'encode': None}
         if r['error'] is not None:
             return {'status': 'REQUEST_ERROR', 'reason': r['error']['reason'], 'crash': None, 'crypto': list(self.crypto_calls),
                     'warned': self.cap.warnings, 'message': r['error']['message'], 'encode': None}
@@ -437,6 +444,9 @@ NAME_ONLY = ['Cryptographic Domain Parameters', 'X.509 Certificate Identifier', 
              'Digital Signature Algorithm', 'Usage Limits', 'Revocation Reason', 'Link', 'Alternative Name',
              'Key Value Present', 'Key Value Location']
 AF = attr_factory.AttributeFactory()
+# KMIP 2.0 attribute kinds that exist as tags only (no rule set, no factory entry): usable in New/CurrentAttribute
+TAG_ONLY = ['Comment', 'Description', 'Key Format Type', 'NIST Key Type', 'Protection Level', 'Quantum Safe', 'Short Unique Identifier',
+            'PKCS#12 Friendly Name', 'Random Number Generator', 'Certificate Subject CN', 'Opaque Data Type']
 
 
 def mk_attr(a):
@@ -454,6 +464,9 @@ def mk_attr(a):
 def mk_value2(a):
     """Bare attribute value carrying its own attribute tag (KMIP 2.0 New/CurrentAttribute content)."""
     name = a['name']
+    if name in TAG_ONLY:
+        tag = [t for n, t in enums.attribute_name_tag_table if n == name][0]
+        return primitives.TextString(a.get('val', 'v'), tag=tag)
     if name == 'Cryptographic Usage Mask' and isinstance(a.get('val'), int):
         v = cattrs.CryptographicUsageMask(a['val'])
         v.tag = enums.Tags.CRYPTOGRAPHIC_USAGE_MASK
@@ -470,6 +483,36 @@ def mk_template(t, tag=enums.Tags.TEMPLATE_ATTRIBUTE):
     if t.get('tnames'):
         ta.names = [cattrs.Name.create('tmpl', enums.NameType.UNINTERPRETED_TEXT_STRING)]
     return ta
+
+
+def mk_auth(kind):
+    """Request-header Authentication with one credential of each kind the protocol defines (None = no Authentication)."""
+    if kind is None:
+        return None
+    CT = enums.CredentialType
+    if kind == 'username':
+        cred = cobjects.Credential(CT.USERNAME_AND_PASSWORD, cobjects.UsernamePasswordCredential(username='alice', password='pw'))
+    elif kind == 'username-other':
+        cred = cobjects.Credential(CT.USERNAME_AND_PASSWORD, cobjects.UsernamePasswordCredential(username='mallory'))
+    elif kind == 'device':
+        cred = cobjects.Credential(CT.DEVICE, cobjects.DeviceCredential(device_serial_number='serial', password='pw', device_identifier='dev',
+                                                                         network_identifier='net', machine_identifier='mach', media_identifier='media'))
+    elif kind == 'device-minimal':
+        cred = cobjects.Credential(CT.DEVICE, cobjects.DeviceCredential(device_serial_number='serial'))
+    elif kind == 'attestation':
+        cred = cobjects.Credential(CT.ATTESTATION, cobjects.AttestationCredential(
+            nonce=cobjects.Nonce(nonce_id=b'\x01', nonce_value=b'\x02' * 8), attestation_type=enums.AttestationType.TPM_QUOTE,
+            attestation_measurement=b'\xff' * 4))
+    elif kind == 'two':
+        return contents.Authentication(credentials=[
+            cobjects.Credential(CT.DEVICE, cobjects.DeviceCredential(device_serial_number='serial')),
+            cobjects.Credential(CT.USERNAME_AND_PASSWORD, cobjects.UsernamePasswordCredential(username='alice', password='pw'))])
+    else:
+        raise KeyError(kind)
+    return contents.Authentication(credentials=[cred])
+
+
+AUTH_KINDS = ['username', 'username-other', 'device', 'device-minimal', 'attestation', 'two']
 
 
 def mk_params(p):
@@ -1077,6 +1120,54 @@ def extreme_menu(uid, ver):
     return out
 
 
+LENGTHS = [-2 ** 31, -8, -1, 0, 1, 7, 8, 9, 127, 128, 129, 255, 256, 257, 512, 1024, 2 ** 31 - 8, 2 ** 31 - 1]
+
+
+def length_menu(sym):
+    """Negative / zero / non-multiple-of-8 / huge Cryptographic Length in every template that carries one."""
+    out = []
+    A, L, M = 'Cryptographic Algorithm', 'Cryptographic Length', 'Cryptographic Usage Mask'
+    hp = {'hashing_algorithm': HASH.SHA_256}
+    aes = {'cryptographic_algorithm': ALG.AES, 'block_cipher_mode': MODE.CBC, 'padding_method': PAD.PKCS5}
+    for n in LENGTHS:
+        for meth, dp in (('HASH', {'params': hp}), ('HMAC', {'params': hp, 'data': b'dd', 'salt': b'ss'}), ('PBKDF2', {'params': hp, 'salt': b'ss', 'iterations': 2}),
+                         ('NIST800_108_C', {'params': hp, 'data': b'dd'}), ('ENCRYPT', {'params': aes, 'data': b'\x01' * 40, 'iv': b'\x02' * 16})):
+            if n > 8192 and meth in ('PBKDF2', 'NIST800_108_C'):
+                continue        # these really derive n/8 bytes (hundreds of megabytes): a resource question, not this property
+            out.append({'op': 'DeriveKey', 'otype': 'SYMMETRIC_KEY', 'uids': [sym], 'method': meth, 'dp': dp, 'ta': tmpl(A, {'name': L, 'val': n}, M)})
+            out.append({'op': 'DeriveKey', 'otype': 'SECRET_DATA', 'uids': [sym], 'method': meth, 'dp': dp, 'ta': tmpl({'name': L, 'val': n}, M)})
+        for a in (ALG.AES, ALG.TRIPLE_DES, ALG.HMAC_SHA256, ALG.RC4):
+            out.append({'op': 'Create', 'otype': 'SYMMETRIC_KEY', 'ta': tmpl({'name': A, 'val': a}, {'name': L, 'val': n}, M)})
+        if n <= 1024:
+            out.append({'op': 'CreateKeyPair', 'common': tmpl({'name': A, 'val': ALG.RSA}, {'name': L, 'val': n}), 'private': tmpl(M), 'public': tmpl(M)})
+        out.append({'op': 'CreateKeyPair', 'common': tmpl({'name': A, 'val': ALG.RSA}), 'private': tmpl(M, {'name': L, 'val': n}), 'public': tmpl(M, {'name': L, 'val': 1024})})
+        for t in ('SYMMETRIC_KEY', 'PRIVATE_KEY', 'SPLIT_KEY', 'SECRET_DATA', 'CERTIFICATE'):
+            out.append({'op': 'Register', 'otype': t, 'secret': {'type': t}, 'ta': tmpl({'name': L, 'val': n})})
+    return out
+
+
+def pair_menu(uid, rng, sample):
+    """KMIP 2.0 current/new attribute forms with every PAIR of attribute kinds (same kind, different kind, multivalued against
+    single-valued, kinds that exist as tags only)."""
+    kinds = CONSTRUCTIBLE + TAG_ONLY
+    pairs = [(a, b) for a in kinds for b in kinds]
+    fixed = [('Name', 'Object Group'), ('Object Group', 'Name'), ('Name', 'Application Specific Information'), ('Sensitive', 'Name'),
+             ('Name', 'Sensitive'), ('Sensitive', 'Comment'), ('Comment', 'Sensitive'), ('Comment', 'Description'), ('Name', 'Cryptographic Usage Mask'),
+             ('Application Specific Information', 'Object Group'), ('Cryptographic Parameters', 'Name'), ('Sensitive', 'State'), ('State', 'Sensitive')]
+    if sample is not None:
+        pairs = fixed + rng.sample(pairs, sample)
+    out = []
+    for new, cur in pairs:
+        out.append({'op': 'ModifyAttribute2', 'uid': uid, 'attr': {'name': new}, 'current': {'name': cur}})
+    for k in kinds:
+        out.append({'op': 'ModifyAttribute2', 'uid': uid, 'attr': {'name': k}, 'current': None})
+        out.append({'op': 'SetAttribute', 'uid': uid, 'attr': {'name': k}})
+        out.append({'op': 'DeleteAttribute2', 'uid': uid, 'current': {'name': k}, 'ref': None})
+        out.append({'op': 'DeleteAttribute2', 'uid': uid, 'current': {'name': k}, 'ref': k})
+        out.append({'op': 'DeleteAttribute2', 'uid': uid, 'current': None, 'ref': k})
+    return out
+
+
 def _other_loc(n):
     return {'Name': kdrv.name_value('absent-name'), 'State': ST.DESTROYED, 'Object Type': OT.CERTIFICATE,
             'Cryptographic Usage Mask': [UM.EXPORT], 'Sensitive': False, 'Object Group': 'absent-group'}[n]
@@ -1334,14 +1425,16 @@ class Grid:
     def header(self):
         return HEADER + ''.join('Definition %s : store := %s.\n' % (n, t) for t, n in self.stores.items())
 
-    def cell(self, drv, req, ver, store_obs, user='alice', desc=None, history=None):
+    def cell(self, drv, req, ver, store_obs, user='alice', desc=None, history=None, auth=None):
         store_obs = with_access(drv, store_obs, user, req['op'])
         try:
             item = mk_item(req)
         except (ValueError, TypeError) as e:     # kmip.core itself refuses to build the request: it cannot arrive
             self.ctx.count('unconstructible.%s' % req['op'])
             return {'status': 'UNCONSTRUCTIBLE', 'reason': None, 'crash': None, 'crypto': [], 'warned': 0, 'message': str(e), 'encode': None}
-        obs = drv.run(item, ver, user)
+        obs = drv.run(item, ver, user, auth=mk_auth(auth))
+        if auth is not None:
+            history = (history or []) + [{'request_header_authentication': auth}]
         return self.record(req, ver, store_obs, obs, user, desc, history)
 
     def record(self, req, ver, store_obs, obs, user='alice', desc=None, history=None, coq_req=None, batch=None):
@@ -1567,10 +1660,92 @@ def run_sweep(grid, ctx, ver):
         sym_priv = add_object(drv, obj_spec('SYMMETRIC_KEY', 'Active', 'all', value='rsa_priv'), 5)
         small = add_object(drv, obj_spec('PRIVATE_KEY', 'Active', 'all', value='small_priv'), 6)
         store = observe_store(drv)
-        for req in asym_menu(sym_pub, sym_priv, small, priv, pub, ctx.subrng('asym')) + enum_sweep_menu(sym, priv, pub):
+        for req in length_menu(sym) + asym_menu(sym_pub, sym_priv, small, priv, pub, ctx.subrng('asym')) + enum_sweep_menu(sym, priv, pub):
             obs = grid.cell(drv, req, ver, store, desc='sweep')
             if req['op'] in MUTATING and obs['status'] == 'SUCCESS':
                 store = observe_store(drv)
+    finally:
+        drv.close()
+
+
+def run_pairs(grid, ctx, rng, sample):
+    """KMIP 2.0 attribute-kind pairs on one object of every class."""
+    drv = Driver(ctx)
+    try:
+        for t in (TYPE_NAMES if sample is None else rng.sample(TYPE_NAMES, 2)):
+            drv.reset()
+            uid = add_object(drv, obj_spec(t, 'PreActive', 'all', names=2, asi=1, groups=1), 1)
+            store = observe_store(drv)
+            for req in pair_menu(uid, rng, sample):
+                obs = grid.cell(drv, req, (2, 0), store, desc='pairs')
+                if obs['status'] == 'SUCCESS':
+                    store = observe_store(drv)
+    finally:
+        drv.close()
+
+
+def run_credentials(grid, ctx, rng):
+    """Every kind of request-header credential with a few operations under every version: header processing must not fail."""
+    drv = Driver(ctx)
+    try:
+        uid = add_object(drv, obj_spec('SYMMETRIC_KEY', 'Active', 'all'), 1)
+        store = observe_store(drv)
+        for ver in kdrv.VERSIONS:
+            for kind in AUTH_KINDS:
+                for req in ({'op': 'Get', 'uid': uid}, {'op': 'Query', 'functions': ['QUERY_OPERATIONS']}, {'op': 'Locate', 'attrs': []},
+                            {'op': 'GetAttributes', 'uid': uid, 'names': ['Name']}):
+                    for user in ('alice', 'bob'):
+                        grid.cell(drv, req, ver, observe_store(drv, user) if user != 'alice' else store, user=user, desc='credentials', auth=kind)
+    finally:
+        drv.close()
+
+
+FIXTURE = 'c13_store_v1.sql'
+
+
+def run_old_store(grid, ctx):
+    """A store file written by an earlier build of the tree (literal SQL dump harness/c13_store_v1.sql, written by the tree at
+    repo commit 02e2981): every operation on the objects it holds must still be answered without an internal error."""
+    import sqlite3
+    from pathlib import Path
+    src = Path(__file__).resolve().parent / FIXTURE
+    drv = Driver(ctx)
+    try:
+        drv.eng.engine._data_store.dispose()
+        for suffix in ('', '-journal'):
+            try:
+                os.unlink(drv.eng.path + suffix)
+            except OSError:
+                pass
+        con = sqlite3.connect(drv.eng.path)
+        con.executescript(src.read_text())
+        con.commit()
+        con.close()
+        drv.eng.restart()
+        drv.attach()
+        store = observe_store(drv)
+        for ver in ((1, 2), (2, 0)):
+            for o in store:
+                u = o['uid']
+                reqs = [{'op': 'Get', 'uid': u}, {'op': 'GetAttributes', 'uid': u, 'names': None}, {'op': 'GetAttributeList', 'uid': u},
+                        {'op': 'Encrypt', 'uid': u, 'params': SYM_PARAMS[2], 'iv': None, 'data': b'abc'},
+                        {'op': 'MAC', 'uid': u, 'params': {'cryptographic_algorithm': ALG.HMAC_SHA256}, 'data': b'd'},
+                        {'op': 'Sign', 'uid': u, 'params': SIGN_PARAMS[2], 'data': b'msg'}]
+                reqs += [{'op': 'ModifyAttribute1', 'uid': u, 'attr': {'name': 'Name', 'index': 0, 'val': kdrv.name_value('renamed%d' % u)}}] if ver < (2, 0) \
+                    else [{'op': 'SetAttribute', 'uid': u, 'attr': {'name': 'Sensitive'}}]
+                for req in reqs:
+                    obs = grid.cell(drv, req, ver, store, desc='oldstore', history=[{'store_fixture': FIXTURE}])
+                    if req['op'] in MUTATING and obs['status'] == 'SUCCESS':
+                        store = observe_store(drv)
+            for req in ({'op': 'Locate', 'attrs': []}, {'op': 'Locate', 'attrs': [{'name': 'State'}]}, {'op': 'Locate', 'attrs': [{'name': 'Cryptographic Algorithm'}]}):
+                grid.cell(drv, req, ver, store, desc='oldstore', history=[{'store_fixture': FIXTURE}])
+        for o in list(store):
+            for req in ({'op': 'Activate', 'uid': o['uid']}, {'op': 'Revoke', 'uid': o['uid'], 'code': 'KEY_COMPROMISE'}, {'op': 'Destroy', 'uid': o['uid']}):
+                obs = grid.cell(drv, req, (1, 4), store, desc='oldstore', history=[{'store_fixture': FIXTURE}])
+                if obs['status'] == 'SUCCESS':
+                    store = observe_store(drv)
+        grid.cell(drv, {'op': 'Create', 'otype': 'SYMMETRIC_KEY', 'ta': tmpl('Cryptographic Algorithm', 'Cryptographic Length', 'Cryptographic Usage Mask')},
+                  (1, 2), store, desc='oldstore', history=[{'store_fixture': FIXTURE}])
     finally:
         drv.close()
 
@@ -1897,6 +2072,9 @@ def run(ctx):
     sweep_versions = [ctx.subrng('sweep').choice([(1, 2), (1, 3), (1, 4), (2, 0)])] if quick else [(1, 0), (1, 2), (1, 3), (1, 4), (2, 0)]
     for ver in sweep_versions:
         run_sweep(grid, ctx, ver)
+    run_pairs(grid, ctx, ctx.subrng('pairs'), 120 if quick else None)
+    run_credentials(grid, ctx, ctx.subrng('credentials'))
+    run_old_store(grid, ctx)
     run_histories(grid, ctx, ctx.subrng('histories'), 6 if quick else 60)
     run_random(grid, ctx, ctx.subrng('random'), 12 if quick else 60, 40 if quick else 120)
     ctx.log('cells %d, distinct cases %d, stores %d, GENERAL_FAILURE cells %d' % (grid.cells, len(grid.cases), len(grid.stores), grid.crashes))
@@ -1971,6 +2149,27 @@ def replay(ctx, data):
         states = {1: 'PreActive', 2: 'Active', 3: 'Deactivated', 4: 'Compromised', None: 'PreActive'}
         uidmap = {}
         history = w.get('history')
+        auth = None
+        if history and isinstance(history[-1], dict) and 'request_header_authentication' in history[-1]:
+            auth = history[-1]['request_header_authentication']
+            history = history[:-1] or None
+        if history and isinstance(history[0], dict) and 'store_fixture' in history[0]:
+            # the store is the SQL dump kept next to the harness (written by an earlier build of the tree)
+            import sqlite3
+            from pathlib import Path
+            drv.eng.engine._data_store.dispose()
+            try:
+                os.unlink(drv.eng.path)
+            except OSError:
+                pass
+            con = sqlite3.connect(drv.eng.path)
+            con.executescript((Path(__file__).resolve().parent / history[0]['store_fixture']).read_text())
+            con.commit()
+            con.close()
+            drv.eng.restart()
+            drv.attach()
+            history = []
+            print('  store loaded from harness/%s' % w['history'][0]['store_fixture'])
         if history is not None:
             # a history cell: redo the recorded steps on a fresh engine (identifiers are issued deterministically)
             for h in history:
@@ -2014,7 +2213,7 @@ def replay(ctx, data):
                 return 1
             print('replay does not reproduce: no internal error')
             return 0
-        obs = drv.run(mk_item(req), ver, user)
+        obs = drv.run(mk_item(req), ver, user, auth=mk_auth(auth))
         site = observed_site(obs)
         print('replayed %s under KMIP %d.%d as %s: status=%s reason=%s site=%s crypto=%s' % (
             req['op'], ver[0], ver[1], user, obs['status'], obs['reason'], site, obs['crypto']))
